@@ -12,7 +12,8 @@ product of 4th order Magnus steps that is self-validated by step halving.
 
 Tolerances (relative, floor = norm of the initial state):
   * 'solve' / 'expm':  1e-10
-  * 'integrate':       1e-6 * max(1, 20 * ||H||_2 * |t - t0|).  scipy's dopri5 /
+  * 'integrate':       1e-6 * max(1, 20 * ||G|| * |t - t0|), ||G|| = ||H||_2 for kets and 2||H||_2 (norm of the
+    commutator) for density operators.  scipy's dopri5 /
     dop853 are run by quimb with their default *local* tolerance rtol=1e-6; the
     flow is unitary so the global error is the sum of the local ones; both
     steppers take fewer than 20 steps per unit of ||H|| t (measured: the error
@@ -40,7 +41,8 @@ RULE = ("cases are (Hermitian H 2-16 dim of 6 spectral kinds x representation, k
 ASSUMPTIONS = [
     "scipy.linalg.expm (Pade) on dense <=16x16 matrices is the trusted propagator; quimb's paths use eigh, "
     "scipy.sparse.linalg.expm_multiply (Taylor) or scipy.integrate.complex_ode, none of which share code with it",
-    "integrator accuracy is stated per unit of ||H|| t: tol = 1e-6*max(1, 20*||H||_2*|t-t0|) (scipy default local rtol=1e-6)",
+    "integrator accuracy is stated per unit of ||G|| t: tol = 1e-6*max(1, 20*||G||*|t-t0|), ||G|| = ||H||_2 (kets) or "
+    "2||H||_2 (density operators) (scipy default local rtol=1e-6, unitary flow: global error = sum of local errors)",
     "time dependent oracle: 4th order Magnus steps h=0.01 and h=0.005 must agree to 1e-9 (else the case is rejected); "
     "for commuting H0, H1 the closed form is used and the Magnus product is cross-checked against it",
     "documented support pins which cells must be accepted: 'integrate' and 'solve' for kets and density operators, "
@@ -106,6 +108,9 @@ def make_ham(Hd, rep, real_dtype=False):
     import quimb as qu
     import scipy.sparse.linalg as spla
 
+    # Evolution estimates ||H|| of a LinearOperator with random probe vectors (norm_fro_approx) to choose its
+    # first step: seed quimb's generator so that the case is a pure function of its description
+    qu.seed_rand(0)
     kw = {}
     Hin = Hd
     if real_dtype and float(np.max(np.abs(Hd.imag))) == 0.0:
@@ -191,7 +196,9 @@ class Ctx:
 
     def tol(self, t):
         if self.meth == "integrate":
-            return TOL_INT * max(1.0, STEPS_PER_UNIT * self.hnorm * abs(float(t) - self.t0))
+            # generator of the flow: -iH for kets, the commutator -i[H, .] (norm <= 2||H||) for density operators
+            gen = self.hnorm * (2.0 if self.isdop else 1.0)
+            return TOL_INT * max(1.0, STEPS_PER_UNIT * gen * abs(float(t) - self.t0))
         return TOL_EXACT
 
     def ref(self, t):
@@ -1014,23 +1021,23 @@ SUBCHECKS = [
                   "Hamiltonian(8: dense, csr, csc, (evals,evecs), LinearOperator dense/sparse, callable dense/sparse) x t0(0,+-0.7) x "
                   "4 instances (d=4,3,6,2; update_to with repeat, non-uniform update_to, at_times; non-monotonic for solve): raise at "
                   "construction/first update or match the oracle at every time; documented-supported cells must be accepted; nt: accepted cell"),
-    SubCheck("seq_solve", machine=machine("solve"), examples=(120, 2500), shards=(1, 4),
+    SubCheck("seq_solve", machine=machine("solve"), examples=(200, 2500), shards=(1, 4),
              rule="history machine on method='solve' (dense/csr/csc/pre-diagonalised): update_to at arbitrary (non-monotonic, repeated) times, "
                   "at_times with partial consumption; after each request evo.t, evo.pt, new results entries, norm/trace, purity, energy; "
                   "nt: dop or t0!=0 or >=3 requests"),
-    SubCheck("seq_integrate", machine=machine("integrate"), examples=(100, 2000), shards=(2, 6),
+    SubCheck("seq_integrate", machine=machine("integrate"), examples=(120, 2000), shards=(2, 6),
              rule="history machine on method='integrate' (dop853 and dopri5; dense/sparse/LinearOperator/callable): non-decreasing times "
                   "(non-uniform, repeated), at_times; evo.t, evo.pt, every callback event vs oracle of its own time; nt as RULE"),
-    SubCheck("seq_expm", machine=machine("expm"), examples=(120, 2500), shards=(1, 4),
+    SubCheck("seq_expm", machine=machine("expm"), examples=(200, 2500), shards=(1, 4),
              rule="history machine on method='expm' (dense/csr/csc; ket, dop, sparse states with sparse H): non-decreasing times, at_times; nt as RULE"),
-    SubCheck("timedep", run_timedep, s_timedep, examples=(120, 2500), shards=(2, 6),
+    SubCheck("timedep", run_timedep, s_timedep, examples=(150, 2500), shards=(2, 6),
              rule="callable H(t)=H0+f(t)H1 (f: cos, linear, quadratic, const; generic or commuting H1; dense or sparse return) with both steppers, "
                   "ket/dop, t0, 1-4 requested times via update_to/at_times, callbacks incl. H(t) seen by 3-argument callbacks; "
                   "nt: ||H||*T >= 0.05 and f not constant"),
-    SubCheck("callbacks", run_callbacks, s_callbacks, examples=(200, 4000), shards=(1, 4),
+    SubCheck("callbacks", run_callbacks, s_callbacks, examples=(300, 4000), shards=(1, 4),
              rule="compute= single (2/3 arguments) or dict (mixed) x method x representation: results structure, one event per request for "
                   "solve/expm at exactly the requested time, every event == oracle state at its time, Hamiltonian argument as documented; all nt"),
-    SubCheck("int_stop", run_int_stop, s_int_stop, examples=(150, 3000), shards=(1, 4),
+    SubCheck("int_stop", run_int_stop, s_int_stop, examples=(250, 3000), shards=(1, 4),
              rule="int_stop (2/3 arguments, returning -1 / 0 / None) with and without compute: integration ends at the first event that returned "
                   "-1 and (evo.t, evo.pt) is the oracle state of that time, otherwise runs to T; non-integrate methods must raise ValueError; "
                   "nt: integrate cases"),
